@@ -17,22 +17,61 @@ def streams(ctx, res):
     prng_srcs = [os.path.join(cl.REPO, "lib", "prng", "fastrandombytes.cpp"),
                  os.path.join(cl.REPO, "lib", "prng", "nfl_crypto_stream_salsa20_amd64_xmm6.s")]
     specs = [dict(name="conc18", backend=b, sanitize="thread", with_prng=False, extra_srcs=prng_srcs) for b in ("serial", "avx2")]
+    # boundary mode (position in the process's history), unsanitised = real speed: black box (counted advance) and
+    # white box (the repository's fastrandombytes.cpp #included: `nonce` presettable, as in C13's harness)
+    src = [os.path.join(cl.HARNESS, "conc18.cpp")]
+    prng_dir = os.path.join(cl.REPO, "lib", "prng")
+    specs += [dict(name="conc18n", backend="serial", sanitize=None, with_prng=False, srcs=src, extra_srcs=prng_srcs),
+              dict(name="conc18w", backend="serial", sanitize=None, with_prng=False, srcs=src, extra_srcs=prng_srcs[1:],
+                   extra=["-DFRB_WHITEBOX", "-I" + prng_dir])]
     exes, errs = cl.build_harnesses(specs)
+    whitebox = "available"
     for k, e in errs.items():
+        if k[0] == "conc18w" and ("conc18n", "serial") in exes:
+            # the same source compiles as a black box: the white-box handle (static `nonce` of fastrandombytes.cpp) is gone
+            whitebox = "unavailable (fastrandombytes.cpp has no presettable static `nonce`: %s); boundaries above 2^24 not reached" % \
+                       (" ".join(l.strip() for l in e.splitlines() if "error" in l)[:200])
+            continue
         ctx["problems"].append({"kind": "harness-build", "what": "conc18 does not compile for %s" % (k,), "detail": e})
     # the executable spec must reject a reused nonce, a gap, a second seeding, a report (self-test of the tie)
     st = cl.StreamResult()
     selftest = ["conc18 2 0 2 => 1 0 0 0 1 1 0 1", "conc18 2 0 2 => 1 0 0 0 1 1 2 1", "conc18 2 0 2 => 2 0 0 0 1 1 1 1",
-                "conc18 2 0 2 => 1 1 0 0 1 1 1 1", "conc18 1 0 2 => 1 0 0 1 1 0 0 1", "conc18 2 0 2 => 1 0 0 1 1 1 0 1"]
+                "conc18 2 0 2 => 1 1 0 0 1 1 1 1", "conc18 1 0 2 => 1 0 0 1 1 0 0 1", "conc18 2 0 2 => 1 0 0 1 1 1 0 1",
+                # boundary histories around 2^24: good; a new ticket with the old epoch (nonce 0 again); the new epoch too early (a skipped nonce)
+                "conc18b 2 16777214 4 24 0 => 1 0 2 16777214 1 0 16777215 1 1 16777216 1 0 16777217 1",
+                "conc18b 2 16777214 4 24 0 => 1 0 2 16777214 1 0 16777215 1 1 0 1 0 16777217 1",
+                "conc18b 2 16777214 4 24 0 => 1 0 2 16777214 1 0 33554431 1 1 16777216 1 0 16777217 1"]
     cl.feed_driver(st, "selftest", selftest)
-    if len(st.specfail) != 5 or st.ok != 1:
+    if len(st.specfail) != 7 or st.ok != 2:
         ctx["problems"].append({"kind": "selftest", "what": "executable spec histOk does not reject the bad histories (specfail=%d ok=%d)" % (len(st.specfail), st.ok)})
     thorough = ctx["tier"] == "thorough"
     Ts = list(range(2, 17)) if thorough else [2, 3, 4, 6, 8, 12, 16]
     reps = 4
     nrep = 0
     runs = 0
+    # ---- boundary bursts: the burst straddles a carry of the request counter (k*2^8, k*2^16, k*2^24; white box 2^32..2^64)
+    # measured on seeded change C18-2 (ticket/epoch split at 2^24): one burst at a 2^24 boundary detects it with
+    # probability 0.45-0.78 (T=4..16, R=10..150; 5 processes x 8 bursts each) => 7 bursts: miss probability < 0.55^7 = 0.015
+    bseed = ctx["seed"] * 1000 + 18
+    n24 = 24 if thorough else 7
+    bjobs = [("conc18n", "blackbox", {"VERIF_THREADS": "8", "VERIF_REQS": "16", "VERIF_BOUNDARY": "8:6,16:6,24:%d" % n24}),
+             ("conc18n", "blackbox-T4", {"VERIF_THREADS": "4", "VERIF_REQS": "40", "VERIF_BOUNDARY": "8:4,16:4" + (",24:12" if thorough else "")}),
+             ("conc18n", "blackbox-T16", {"VERIF_THREADS": "16", "VERIF_REQS": "10", "VERIF_BOUNDARY": "8:4,16:4" + (",24:12" if thorough else "")}),
+             ("conc18w", "whitebox", {"VERIF_THREADS": "8", "VERIF_REQS": "16",
+                                      "VERIF_BOUNDARY": "8:2,16:2,24:%d,32:%d,40:%d,48:%d,56:%d,64:%d" % ((40,) * 6 if thorough else (8,) * 6)}),
+             ("conc18", "tsan", {"VERIF_THREADS": "8", "VERIF_REQS": "16", "VERIF_BOUNDARY": "8:3,16:3"})]
+    bruns = 0
+    for name, label, env in bjobs:
+        exe = exes.get((name, "serial"))
+        if not exe:
+            continue
+        env = dict(env, VERIF_SEED=str(bseed), VERIF_TIER=ctx["tier"])
+        nrep += _c17.run_tsan_stream(ctx, res, "conc18-boundary/" + label, exe, env,
+                                     "a burst of concurrent requests that straddles a carry boundary of the 64-bit request counter reuses or skips a nonce")
+        bruns += 1
     for (name, b), exe in sorted(exes.items()):
+        if name != "conc18":
+            continue
         for T in Ts:
             for r in range(reps):
                 if b != "serial" and r > 1:
@@ -49,13 +88,14 @@ def streams(ctx, res):
             sf["line"] = sf["line"][:1500] + " …"
     if len(res.specfail) > 6:
         del res.specfail[6:]
-    return {"backends": sorted(b for (_, b) in exes), "tsan_reports": nrep, "process_runs": runs, "failing_runs": total_specfail,
+    return {"backends": sorted(b for (n_, b) in exes if n_ == "conc18"), "tsan_reports": nrep, "process_runs": runs, "failing_runs": total_specfail,
+            "boundary_runs": bruns, "whitebox_nonce_preset": whitebox,
             "note": "every process run starts with all threads released together before any request has been made (first-request race)"}
 
 
 PROP = {
     "streams": streams,
-    "rule": "each run = one process: T in {2,3,4,8,16} (thorough 2..16) threads released together before ANY request, 200-300 (thorough 800) requests per thread of lengths 8,1,64,100,1000,3,16,65,128,2,63 from /repo's fastrandombytes (fixed key); every returned block identified among portable-C Salsa20 reference keystreams of nonces 0..N+15 (cross-checked against the assembly), short blocks by maximum matching; the Lean driver checks per run: nonces = {0..N-1} each once, per-thread increasing, one seeding, zero TSan reports; then one FastGaussianNoise object shared by threads calling getNoise while others sample uniform/ZO/hwt/bounded/gaussian polynomials; distinct = distinct runs",
+    "rule": "boundary bursts (position in the process's history): the main thread advances the generator with counted silent requests to N0 = k*2^b - d (b = 8, 16, 24 black box, really performed, up to 17 M requests per boundary; b = 32..56 and the wrap 2^64 white box by presetting the static nonce, when it exists), probes (must be nonce N0-1), then T = 4/8/16 threads are released so that their N = T*R requests straddle the carry; blocks identified among the reference keystreams of [N0-1-24, N0+N+24] and of the window shifted by +-2^b, +-2^(b-8); history must be N0-1..N0+N-1 each once; repeated per boundary (quick: 7 x 2^24 - measured single-burst detection of seeded change C18-2 0.45-0.78 - thorough 48). Then each run = one process: T in {2,3,4,8,16} (thorough 2..16) threads released together before ANY request, 200-300 (thorough 800) requests per thread of lengths 8,1,64,100,1000,3,16,65,128,2,63 from /repo's fastrandombytes (fixed key); every returned block identified among portable-C Salsa20 reference keystreams of nonces 0..N+15 (cross-checked against the assembly), short blocks by maximum matching; the Lean driver checks per run: nonces = {0..N-1} each once, per-thread increasing, one seeding, zero TSan reports; then one FastGaussianNoise object shared by threads calling getNoise while others sample uniform/ZO/hwt/bounded/gaussian polynomials; distinct = distinct runs",
     "trusted_base": _props.COMMON_TB + [
         "PARTIAL: the theorems are about the interleaving model of Model/Prng18.lean (each line of the request = one atomic step, sequentially consistent memory, std::mutex = an atomic test-and-set that is enabled only when free); that the compiled code is such an interleaving is not proved; real schedules are observed under ThreadSanitizer",
         "block identification is done in C++ (harness/conc18.cpp: portable Salsa20/20 reference, cross-checked against the repository's assembly called directly) - no executable Lean Salsa20 in this tree; a block is identified with the (nonce, key) it was generated from",
